@@ -182,7 +182,7 @@ fn extra_sets(tier: Tier) -> Vec<(String, Vec<(String, Vec<u8>)>)> {
             v.push((format!("4200 files around a related name pair #{} ({})", k, if at_end { "pair last" } else { "pair first" }), files));
         }
     }
-    let (counts, lens, names) = tier.pick((300usize, 200usize, 300usize), (1500, 700, 1200));
+    let (counts, lens, names) = tier.pick((300usize, 200usize, 1700usize), (1500, 700, 4400));
     for n in 0..=counts {
         v.push((format!("{} files", n), (0..n).map(|i| (format!("f{}", i), body(i % 4, (i * 7) % 5))).collect()));
     }
